@@ -175,6 +175,29 @@ class CompMixin:
     node = gen.node
     if len(node.generators) != 1:
       raise Unsupported('nested list comprehension')
+    # unordered source (set / dict): fix an arbitrary ghost enumeration first
+    g0 = node.generators[0]
+    saved_env = self.env
+    self.env = dict(gen.env)
+    try:
+      it0 = self.eval(g0.iter)
+    finally:
+      self.env = saved_env
+    unordered = (isinstance(it0, tuple) and it0 and it0[0] in ('dict_items', 'dict_values')) or (
+        isinstance(it0, V) and isinstance(it0.sort, (S.SetOf, S.DictOf)))
+    if unordered:
+      if it0[0] == 'dict_values' if isinstance(it0, tuple) else False:
+        raise Unsupported('list from dict.values()')
+      seqv = self.iter_to_seq(it0, node)
+      tmp = '_enum%d' % id(node)
+      env2 = dict(gen.env)
+      env2[tmp] = seqv
+      g2 = ast.comprehension(target=g0.target, iter=ast.Name(id=tmp, ctx=ast.Load()),
+                             ifs=g0.ifs, is_async=0)
+      node2 = ast.ListComp(elt=node.elt, generators=[g2])
+      ast.copy_location(node2, node)
+      ast.fix_missing_locations(node2)
+      return self.comp_list(Gen(node2, env2))
     saved, vars_, conds, doms = self.open_gen(gen)
     try:
       d = doms[0]
